@@ -95,7 +95,12 @@ pub fn gen_cli_case(rng: &mut Rng, big: bool) -> CompressCase {
         let win = *rng.pick(&[1usize, 4, 16, 32, 64]);
         let min = rng.below(avg as u64 + 1) as usize;
         let max = (avg + rng.below(if big { 1 << 21 } else { 3000 }) as usize).max(win);
-        Cfg { algo, bits, min, max, win }
+        // the edges of what the command line accepts: min = avg = max, window = max
+        match if big { 9 } else { rng.below(8) } {
+            0 if win <= avg => Cfg { algo, bits, min: avg, max: avg, win },
+            1 => Cfg { algo, bits, min, max, win: max },
+            _ => Cfg { algo, bits, min, max, win },
+        }
     };
     let len = if big { (1 << 20) + rng.range(0, 400_000) as usize } else {
         match rng.below(8) { 0 => 0, 1 => 1, 2 => cfg.win.saturating_sub(1), 3 => cfg.min + 1, _ => rng.range(0, 30000) as usize }
@@ -181,6 +186,24 @@ pub fn suite_clirt(dir: &str, seed: u64, thorough: bool, st: &mut Stats) {
                 st.violation("C11", "compress --force-create over an existing larger file does not leave exactly the archive", &replay);
             }
             let _ = std::fs::remove_file(s.p("over.cba"));
+        }
+        // C12 / C11: what an earlier, interrupted run left behind (a stale temp file, longer than this run's chunk
+        // data) is not part of the result
+        if i % 4 == 2 {
+            let stale: Vec<u8> = (0..archive.len() + rng.range(1, 5000) as usize).map(|_| rng.next() as u8).collect();
+            s.write("again..tmp", &stale);
+            let mut args4: Vec<String> = vec!["compress".into(), "-i".into(), "src.bin".into()];
+            args4.extend(compress_args(&c));
+            args4.push("again.cba".into());
+            let argv4: Vec<&str> = args4.iter().map(|x| x.as_str()).collect();
+            let (code4, _) = s.bita(&argv4, None, &[]);
+            let again = s.read("again.cba").unwrap_or_default();
+            st.count("clirt/stale-temp-file");
+            if code4 != 0 || again != archive {
+                st.violation("C12", "compress with a stale temp file of an earlier run present gives another archive (or fails)", &replay);
+            }
+            if s.p("again..tmp").exists() { st.violation("C16", "the temp file is left behind", &replay); }
+            let _ = std::fs::remove_file(s.p("again.cba"));
         }
         // C12: second run, input through a pipe, other buffering
         let mut args2: Vec<String> = vec!["compress".into()];
@@ -310,6 +333,15 @@ pub fn suite_cliclone(dir: &str, seed: u64, thorough: bool, st: &mut Stats) {
         let hdr_reqs: Vec<(u64, u64)> = reqs.iter().copied().filter(|(o, _)| *o < hdr_len).collect();
         if data_reqs != runs {
             st.violation("C06", &format!("chunk data requested {} but missing chunks are {}", log_str(&data_reqs), log_str(&runs)), &replay);
+            // C07: one request per maximal run of adjacent wanted chunks -- the requests overlap / repeat, or two of
+            // them are adjacent (should have been one), or they are out of archive order
+            let mut bad = false;
+            for w in data_reqs.windows(2) { if w[0].0 + w[0].1 >= w[1].0 { bad = true; } }
+            let covered: u64 = data_reqs.iter().map(|r| r.1).sum();
+            let wanted: u64 = runs.iter().map(|r| r.1).sum();
+            if bad || (covered == wanted && data_reqs.len() != runs.len()) {
+                st.violation("C07", &format!("chunk data requests {} are not the maximal runs {}", log_str(&data_reqs), log_str(&runs)), &replay);
+            }
         }
         if hdr_reqs != vec![(0, 14), (14, hdr_len - 14)] {
             st.violation("C06", &format!("besides chunk data the reads were {}", log_str(&hdr_reqs)), &replay);
@@ -588,6 +620,130 @@ pub fn suite_clitrace(dir: &str, seed: u64, thorough: bool, st: &mut Stats) {
             st.violation("C16", &format!("{}: new files {:?}, expected {:?}", mode, newfiles, want_new), &line);
         }
         lines.push((line, eff.join(" ")));
+    }, st, &mut out);
+    out.finish();
+}
+
+// ---------------------------------------------------------------------------------------------
+/// the file operations a traced process made on the file `name` (opened for writing): the writes as
+/// (offset, length) in order of completion and the lengths passed to ftruncate. The cursor is followed through
+/// lseek / read / write results; `strace -f` splits calls that overlap in time into `<unfinished ...>` /
+/// `<... resumed>` pairs, which are joined per pid first.
+fn traced_writes(log: &str, name: &str) -> Result<(Vec<(u64, u64)>, Vec<u64>), String> {
+    let mut pending: std::collections::HashMap<String, String> = Default::default();
+    let mut fd: Option<String> = None;
+    let mut pos = 0u64;
+    let mut writes = vec![];
+    let mut truncs = vec![];
+    for raw in log.lines() {
+        let (pid, l) = match raw.find(' ') { Some(p) if raw[..p].chars().all(|c| c.is_ascii_digit()) => (raw[..p].to_string(), raw[p + 1..].trim_start()), _ => ("0".to_string(), raw.trim_start()) };
+        let full: String = if let Some(head) = l.strip_suffix("<unfinished ...>") { pending.insert(pid, head.trim_end().to_string()); continue; }
+            else if l.starts_with("<... ") { match (pending.remove(&pid), l.find("resumed>")) { (Some(h), Some(p)) => format!("{}{}", h, &l[p + 8..]), _ => continue } }
+            else { l.to_string() };
+        let l = full.as_str();
+        let call = l.split('(').next().unwrap_or("");
+        let res = match l.rfind(" = ") { Some(p) => l[p + 3..].split(' ').next().unwrap_or(""), None => continue };
+        let arg0 = l.splitn(2, '(').nth(1).unwrap_or("").split(|c| c == ',' || c == ')').next().unwrap_or("").trim().to_string();
+        if call == "openat" || call == "open" {
+            let path = l.split('"').nth(1).unwrap_or("");
+            let is_it = path == name || path.ends_with(&format!("/{}", name));
+            if is_it && (l.contains("O_WRONLY") || l.contains("O_RDWR")) && !res.starts_with('-') { fd = Some(res.to_string()); pos = 0; }
+            continue;
+        }
+        if fd.as_deref() != Some(arg0.as_str()) { continue; }
+        let n: i64 = res.parse().unwrap_or(-1);
+        match call {
+            "lseek" => { if n >= 0 { pos = n as u64; } }
+            "read" => { if n > 0 { pos += n as u64; } }
+            "write" => { if n > 0 { writes.push((pos, n as u64)); pos += n as u64; } else if n < 0 { return Err(format!("failed write: {}", l)); } }
+            "pwrite64" => { let off: u64 = l.rsplitn(2, ", ").next().unwrap_or("").split(')').next().unwrap_or("").trim().parse().map_err(|_| format!("pwrite offset: {}", l))?; if n > 0 { writes.push((off, n as u64)); } }
+            "pread64" => {}
+            "ftruncate" => { let len: u64 = l.splitn(2, ", ").nth(1).unwrap_or("").split(')').next().unwrap_or("").trim().parse().map_err(|_| format!("ftruncate length: {}", l))?; if n == 0 { truncs.push(len); } }
+            "close" => { fd = None; }
+            _ => {}
+        }
+    }
+    Ok((writes, truncs))
+}
+
+/// Suite `cliwrites` (C13, C03, C02): the write system calls of `bita clone` on its output file (strace), for old
+/// outputs that share, duplicate, permute or already hold chunks of the source, with --seed-output and seed files,
+/// against the write list of Model/CloneBytes.v; and the write-economy predicate on the observed calls.
+pub fn suite_cliwrites(dir: &str, seed: u64, thorough: bool, st: &mut Stats) {
+    let mut out = SuiteOut::new(dir, "cliwrites");
+    let n = if thorough { 400 } else { 48 };
+    par_for(n, 12, |i, st, lines| {
+        let mut rng = Rng::new(seed ^ 0x97 ^ ((i as u64) << 20));
+        let mut c = gen_cli_case(&mut rng, false);
+        // sources with repeated blocks (a chunk at several offsets) half of the time
+        let base = gen_data(&mut rng, 3000).0;
+        if c.src.len() < 400 || c.src.len() > 30_000 || rng.chance(1, 2) {
+            let blk: Vec<u8> = (0..rng.range(200, 900)).map(|_| rng.next() as u8).collect();
+            let mut v = vec![];
+            for part in 0..rng.range(2, 6) { if part % 2 == 0 { v.extend_from_slice(&blk); } else { let a = rng.below(base.len() as u64 / 2) as usize; v.extend_from_slice(&base[a..a + rng.range(100, 1200) as usize]); } }
+            c.src = v;
+        }
+        let s = Scn::new("cw", i as u64);
+        s.write("src.bin", &c.src);
+        let mut args: Vec<String> = vec!["compress".into(), "-i".into(), "src.bin".into()];
+        args.extend(compress_args(&c));
+        args.push("a.cba".into());
+        let argv: Vec<&str> = args.iter().map(|x| x.as_str()).collect();
+        if s.bita(&argv, None, &[]).0 != 0 { return; }
+        let archive = s.read("a.cba").unwrap();
+        let prior: Vec<u8> = match rng.below(8) {
+            0 => vec![],
+            1 => c.src.clone(),
+            2 => { let mut v = c.src.clone(); for _ in 0..rng.range(1, 2000) { v.push(rng.next() as u8); } v }       // longer: chunks beyond the new size
+            3 => { let k = rng.below(c.src.len() as u64 + 1) as usize; let mut v = c.src[k..].to_vec(); v.extend_from_slice(&c.src[..k]); v }  // rotated
+            4 => { let mut v: Vec<u8> = (0..rng.range(1, 600)).map(|_| rng.next() as u8).collect(); v.extend_from_slice(&c.src); v }          // shifted right
+            _ => edit(&mut rng, &c.src),
+        };
+        let inplace = !prior.is_empty();
+        let seeds: Vec<Vec<u8>> = (0..rng.below(3)).map(|_| if rng.chance(1, 4) { gen_data(&mut rng, 500).0 } else { edit(&mut rng, &c.src) }).collect();
+        let mut cargs: Vec<String> = vec!["-f".into(), "-s".into(), "0".into(), "-o".into(), "trace.txt".into(), "-e".into(),
+            "trace=open,openat,lseek,read,write,pread64,pwrite64,ftruncate,close".into(), bita_bin(), "clone".into()];
+        if inplace { s.write("out.bin", &prior); cargs.push("--seed-output".into()); }
+        for (k, sd) in seeds.iter().enumerate() { s.write(&format!("seed{}.bin", k), sd); cargs.push("--seed".into()); cargs.push(format!("seed{}.bin", k)); }
+        cargs.push("a.cba".into()); cargs.push("out.bin".into());
+        let cargv: Vec<&str> = cargs.iter().map(|x| x.as_str()).collect();
+        let (code, log) = s.run("strace", &cargv, None, &[]);
+        let tr = s.read("trace.txt").map(|b| String::from_utf8_lossy(&b).to_string()).unwrap_or_default();
+        st.evaluations += 1;
+        st.oracle_checks += 3;
+        let replay = format!("cliwrites {} prior={} inplace={} seeds={:?} src={} priorhex={}", c.cfg.line(), prior.len(), inplace, seeds.iter().map(|x| x.len()).collect::<Vec<_>>(), hex(&c.src), hex(&prior));
+        let got = s.read("out.bin").unwrap_or_default();
+        if code != 0 || got != c.src {
+            st.violation(if inplace { "C03" } else { "C02" }, &format!("bita clone under strace does not reproduce the source (exit {}): {}", code, log.lines().last().unwrap_or("")), &replay);
+            return;
+        }
+        let (writes, truncs) = match traced_writes(&tr, "out.bin") { Ok(x) => x, Err(e) => { st.violation("C13", &format!("trace of the output file not understood: {}", e), &replay); return; } };
+        st.count(&format!("cliwrites/prior={}/seeds={}/writes={}", if prior.is_empty() { "none" } else if prior == c.src { "identical" } else if prior.len() > c.src.len() { "longer" } else { "other" }, seeds.len(),
+            match writes.len() { 0 => "0", 1 => "1", 2..=9 => "2-9", _ => "10+" }));
+        if writes.len() >= 2 { st.nontrivial_key(replay.as_bytes()); }
+        st.sample(format!("cliwrites {} src={}B prior={}B seeds={} writes={} truncs={:?}", c.cfg.line(), c.src.len(), prior.len(), seeds.len(), writes.len(), truncs));
+        // C13 on the observed calls: nothing beyond the source, no byte written twice, and no write of bytes the
+        // location already held when the run began unless an earlier write of this run had changed them
+        let total = c.src.len() as u64;
+        let mut written = vec![false; c.src.len()];
+        for (o, l) in &writes {
+            if o + l > total { st.violation("C13", &format!("write of {} bytes at {} beyond the source length {}", l, o, total), &replay); break; }
+            if written[*o as usize..(*o + *l) as usize].iter().any(|b| *b) { st.violation("C13", &format!("bytes at {}..{} written twice", o, o + l), &replay); break; }
+            for b in &mut written[*o as usize..(*o + *l) as usize] { *b = true; }
+        }
+        if truncs != vec![total] { st.violation("C13", &format!("output resized with {:?}, expected once to {}", truncs, total), &replay); }
+        // model: the same bytes through Model/CloneBytes.v
+        if let Some(al) = crate::tamper::aclone_line(&archive) {
+            let mut tab: Vec<String> = vec![];
+            let mut seen = std::collections::HashSet::new();
+            let mut scanned: Vec<&Vec<u8>> = seeds.iter().collect();
+            if inplace { scanned.push(&prior); }
+            for d in scanned { if let Ok((chs, _)) = crate::chunking::run_chunker(&c.cfg, d, vec![]) { for (_, ch) in chs { if seen.insert(ch.clone()) { tab.push(format!("{}={}", hex(&ch), hex(&b2(&ch)))); } } } }
+            let line = format!("cbytesw {} {} {} {} {}", &al["aclone ".len()..], if prior.is_empty() { "-".into() } else { hex(&prior) }, if inplace { 1 } else { 0 },
+                if seeds.is_empty() { "-".into() } else { seeds.iter().map(|x| if x.is_empty() { "e".to_string() } else { hex(x) }).collect::<Vec<_>>().join(",") },
+                if tab.is_empty() { "-".into() } else { tab.join(";") });
+            lines.push((line, format!("OK w={} {}", writes.iter().map(|(o, l)| format!("{}:{}", o, l)).collect::<Vec<_>>().join(","), hex(&got))));
+        }
     }, st, &mut out);
     out.finish();
 }
